@@ -135,11 +135,11 @@ prop("C20",
      level="proof",
      explanation="Contract of Move::pgn_notation against spec::record_text for every move value of every kind (piece letter, origin "
                  "file, x iff capture, destination, =Q/R/B/N, O-O, O-O-O), fully symbolic fields; Game::get_pgn's numbering loop body as "
-                 "a slice; Piece::as_char distinct glyph per piece. The board diagram loop of Display (64 write! calls through "
-                 "core::fmt) and the loop headers are glue: not machine-checked.",
+                 "a slice; Piece::as_char distinct glyph per piece; the FEN writer slices decide the `Fen:` line. The board diagram loop of "
+                 "Display (64 write! calls through core::fmt) and the loop headers are glue: exercised by a native test, not machine-checked.",
      assumptions=["String/core::fmt code of std is verified along the executed paths only (Kani's std models)",
                   "the Hash:/Fen:/PGN: lines of Display print self.hash, self.fen(), self.get_pgn() (read; C04, C11 cover those values)"],
-     not_machine_checked=["Display for Game: diagram loop (row/column order)", "get_pgn loop header / collect()"])
+     not_machine_checked=["Display for Game: diagram loop (row/column order) -- native test only", "get_pgn loop header / collect() -- native test only"])
 _F20 = ["Move::pgn_notation", "Piece::as_str_pgn"]
 for _n, _st in [("normal_pawn_quiet", "pawn push"), ("normal_pawn_capture", "pawn capture"), ("normal_piece_quiet", "piece move"),
                 ("normal_piece_capture", "piece capture")]:
@@ -281,19 +281,23 @@ PROPS["C03"]["assumptions"].append("direct hash/score round trip for Normal/Prom
 # =================================================================================================
 prop("C01",
      level="proof",
-     slices=["verif_gen_body", "verif_filter_body"],
-     explanation="Components of Game::get_moves under contract, each for a fully symbolic board/state: is_targeted == the independent "
-                 "attack relation (one instance per queried square, 64); Piece::get_moves for each piece kind on each square emits exactly "
-                 "the geometrically valid moves of that piece (sound, complete, no repeats; castling against the is_targeted oracle, asking "
-                 "e,f,g / e,d,c for the mover); the generation-loop body calls the piece generator exactly for own pieces; the legality-filter "
-                 "loop body is push; is_targeted(king after push); pop, keeping the move iff the king is safe, with the not-in-check shortcut; "
-                 "shortcut lemma (a non-aligned non-king move cannot expose the king) proved from the rules alone. Quick tier runs all 64 "
-                 "is_targeted instances, both slices and a seeded subset of squares per generator family (exhaustive: false); thorough runs "
-                 "all squares. The loop glue of get_moves is NOT machine-checked (whole function out of CBMC's reach): native differential test.",
-     assumptions=["WF (one king each, king cache, WF6, WF7, no pawn on rank 1/8) as precondition; established by import (C17) and preserved by push (C02)",
+     technique="Kani/CBMC contract harnesses on the real code: per-square instances for attack detection and per-piece generation, "
+               "verbatim slices of get_moves against abstract callees, rules-only lemmas; native differential test for the residual glue",
+     explanation="Game::get_moves under contract, each obligation for a fully symbolic board/state: is_targeted == the independent attack "
+                 "relation (one instance per queried square, 64); Piece::get_moves for each piece kind on each square emits exactly the "
+                 "geometrically valid moves of that piece (sound, complete, no repeats; castling against the is_targeted oracle, asking "
+                 "e,f,g / e,d,c for the mover); prologue (list emptied, king-missing exit), the generation loops as a whole block (called "
+                 "exactly for own pieces), the legality-filter step (push; is_targeted(king after push); pop; keep iff safe; not-in-check "
+                 "shortcut) and the filter block on three candidates (compaction, truncate); whole get_moves against abstract callees leaves "
+                 "the game untouched; shortcut lemma, king-capture lemma and e.p. invariant proved from the rules alone; push contracts give "
+                 "the preservation of WF that the precondition rests on. Quick tier: all 64 instances of is_targeted and of the lemmas, a "
+                 "seeded subset of squares per generator family (exhaustive: false); thorough: all squares.",
+     slices=["verif_get_moves_prologue", "verif_gen_body", "verif_gen_block", "verif_filter_body", "verif_filter_block"],
+     assumptions=["WF (one king each, king cache, WF6, WF7) as precondition; established by import (C17) and preserved by push (push_contract_*, spec_apply_preserves_wf_*)",
                   "composition of the component contracts into `list == legal moves` is the argument of DESIGN.md section 4 (C01)",
-                  "the 256-slot move buffer is never exceeded (A6: legal positions have < 256 pseudo-legal moves)"],
-     not_machine_checked=["get_moves loop headers, moves.clear(), king-missing exit, keep_index compaction and truncate (native differential test only)"])
+                  "the 256-slot move buffer is never exceeded (A6: legal positions have < 256 pseudo-legal moves)",
+                  "filter_block is bounded in the list length (3): compaction beyond that is covered by the per-step contract plus the native differential test"],
+     not_machine_checked=["the closure that pushes generated moves into the 256-slot buffer (three lines)", "keep_index compaction for lists longer than three (bounded stand-in + native test)"])
 _FGEN = ["Piece::get_moves", "Piece::get_pawn_moves", "Piece::get_king_moves", "Piece::get_knight_moves", "Position::add", "Position::add_unsafe",
          "Game::get_position", "Game::state", "GameState::en_passant", "GameState::*_castling"]
 ob("is_targeted_{i}", "chess::verif_chess::inst::is_targeted::sq{i}", ["C01"],
